@@ -97,6 +97,7 @@ type PodInfo struct {
 	IPInfos       []ipInfoJSON
 	BoundStep     int
 	Index         int // ordinal for sts/tapp pods, -1 otherwise
+	Ranges        [][]string // request_ip_range of this pod (the workload's template may change later)
 }
 
 func (p *PodInfo) key() string    { return p.NS + "/" + p.Name }
@@ -208,6 +209,7 @@ func profileFor(prop string) Profile {
 	case "C05":
 		p.Probe = "memcheck"
 		p.Reload, p.AdminRelease = true, true
+		p.Ranges = true // multi-IP requests: the rollback path of AllocateInSubnetsAndIPRange is part of "every operation"
 		p.Ops = [2]int{6, 18}
 	case "C06":
 		p.Probe = "c06"
